@@ -16,7 +16,7 @@ def run_case(ctx, case):
     c = de(case)
     U, P, W, nodes = c["U"], [tuple(p) for p in c["P"]], c["W"], c["nodes"]
     p, n, knots = kv_info(U)
-    valid = all(U[0] <= x <= U[-1] for x in nodes) and all(U.count(x) + nodes.count(x) <= p + 1 for x in set(nodes) if U[0] < x < U[-1]) \
+    valid = not (U[0] in nodes or U[-1] in nodes) and all(U[0] <= x <= U[-1] for x in nodes) and all(U.count(x) + nodes.count(x) <= p + 1 for x in set(nodes) if U[0] < x < U[-1]) \
         and all(not (x == U[0] or x == U[-1]) for x in nodes)
     rec.case(case, nontrivial=(p >= 1 and len(nodes) > 0))
     rec.count("request", "valid" if valid else "invalid")
@@ -78,7 +78,9 @@ def gen_nodes(rng, U, valid=True):
         nodes += [x] * rng.randint(1, min(cap, 2 if rng.random() < 0.8 else cap))
     rng.shuffle(nodes)
     if not valid:
-        kind = rng.choice(["over", "outside", "end"])
+        kind = rng.choice(["over", "outside", "end", "bothends"])
+        if kind == "bothends":
+            return nodes + [a, b]
         if kind == "over":
             x = rng.choice(knots[1:-1]) if len(knots) > 2 else a + (b - a) / 3
             nodes += [x] * (p + 2 - U.count(x) - nodes.count(x))
@@ -94,6 +96,7 @@ def run(ctx):
     # corpus: witnesses of repaired defects first (D2: node 0; D1: outside node accepted)
     run_case(ctx, ser(dict(kind="insert", U=[F(-1), F(-1), F(1), F(1)], P=[(F(1),), (F(2),)], W=None, nodes=[F(0)])))
     run_case(ctx, ser(dict(kind="insert", U=[F(0), F(0), F(1), F(1)], P=[(F(1),), (F(2),)], W=None, nodes=[F(2)])))
+    run_case(ctx, ser(dict(kind="insert", U=[F(0), F(0), F(1, 2), F(1), F(1)], P=[(F(1),), (F(2),), (F(5),)], W=None, nodes=[F(0), F(1)])))
     for i in range(budget(ctx, 160, 2500)):
         U, P, W = rand_curve(rng, bigknots=(rng.random() < 0.1), force_zero=(i % 6 == 0))
         nodes = gen_nodes(rng, U, valid=(i % 5 != 4))
